@@ -10,6 +10,7 @@ import (
 	"time"
 
 	tcpip "github.com/brewlin/net-protocol/protocol"
+	"github.com/brewlin/net-protocol/protocol/transport/tcp"
 	"verifh/fw"
 	"verifh/rawpeer"
 	"verifh/rfc"
@@ -33,6 +34,7 @@ type cfg struct {
 	PeerISS uint32 `json:"peer_iss"`
 	OwnISS  uint32 `json:"own_iss"`
 	Steps   int    `json:"steps"`
+	Cookie  bool   `json:"cookie"` // passive open answered with a SYN cookie (listener under pressure)
 }
 
 func genCfg(seed int64, k int) cfg {
@@ -55,6 +57,12 @@ func genCfg(seed int64, k int) cfg {
 		c.OwnISS = pool[r.Intn(len(pool))] - uint32(r.Intn(3000))
 	}
 	c.Steps = 10 + r.Intn(40)
+	// last draw, so that the other fields keep their values for a given k
+	if !c.Active && r.Chance(1, 5) {
+		c.Cookie = true
+		// peer MSS values between and on the entries of the cookie MSS table
+		c.MSS = []uint16{536, 537, 1000, 1299, 1300, 1301, 1400, 1439, 1440, 1441, 1452, 1459, 1460, 1461, 9000, uint16(537 + r.Intn(1000)), uint16(1 + r.Intn(535)), 0}[r.Intn(18)]
+	}
 	return c
 }
 
@@ -72,6 +80,10 @@ func scenario(c cfg) {
 	}
 	p := rawpeer.New(h, c.V6)
 	own := c.OwnISS
+	tcp.SynRcvdCountThreshold = 1000
+	if c.Cookie {
+		tcp.SynRcvdCountThreshold = 0
+	}
 	conn, emsg := p.Establish(rawpeer.EstOpts{Active: c.Active, LPort: 80, PPort: uint16(20000 + c.K%20000), PeerISS: c.PeerISS, OwnISS: &own, MSS: c.MSS, WS: c.WS, TS: c.TS, SACK: c.SACK, Window: c.Window, RcvBuf: c.RcvBuf})
 	if conn == nil {
 		if len(emsg) > 8 && emsg[:8] == "harness:" {
@@ -115,14 +127,14 @@ func scenario(c cfg) {
 	if c.V6 {
 		hdr = 40
 	}
-	var written int64  // bytes accepted by Write
-	var peerGot int64  // contiguous bytes the peer has received (relative)
+	var written int64 // bytes accepted by Write
+	var peerGot int64 // contiguous bytes the peer has received (relative)
 	var peerAcked int64
 	lastWnd := c.Window
 	oldAcks := [][2]int64{} // (ack, window field) pairs sent earlier, for stale re-sends
 	// ---- receive-side state
-	var peerSent int64    // next in-order byte the peer will send
-	var appRead int64     // bytes the application has read
+	var peerSent int64 // next in-order byte the peer will send
+	var appRead int64  // bytes the application has read
 	var maxAdvEdge int64 = -1
 	reading := true
 	var ooo [][2]int64 // out-of-order pieces the stack holds
@@ -161,7 +173,13 @@ func scenario(c cfg) {
 					return
 				}
 				if int(n) > conn.PeerMSS {
-					viol("send/exceeds-peer-mss", fmt.Sprintf("%s: segment carries %d bytes, the peer announced MSS %d", ctx, n, conn.PeerMSS))
+					key := "send/exceeds-peer-mss"
+					if c.Cookie && conn.PeerMSS < 536 && n <= 536 {
+						// the specific failing input: a SYN cookie can only encode the MSS table
+						// entries 536/1300/1440/1460, anything below 536 is rounded UP to 536
+						key = "send/cookie-mode-peer-mss-below-536-rounded-up"
+					}
+					viol(key, fmt.Sprintf("%s: segment carries %d bytes, the peer announced MSS %d", ctx, n, conn.PeerMSS))
 					return
 				}
 				if s.IPLen > int(c.MTU) {
